@@ -646,6 +646,10 @@ func walkIPRanges(ranges []nets.IPRange, f func(ip net.IP) bool) {
 			if f(ip) {
 				return
 			}
+			if first == last {
+				// last may be 255.255.255.255, first++ would wrap around and never exceed it
+				break
+			}
 		}
 	}
 }
